@@ -158,6 +158,9 @@ def _api():
     return evaluate, extract, MathExpressionException
 
 
+LIMITED = {'n': 0}
+
+
 def check_eval(s, cls, ctx, api):
     evaluate, _, MEE = api
     ctx.ev(cls)
@@ -181,6 +184,18 @@ def check_eval(s, cls, ctx, api):
     else:
         act = ('x', list(core.exc_site(r[1])))
     case = {'fn': 'evaluate', 's': s}
+    if s and LIMITED['n'] % 7 == 0:
+        # the same expression given as a Scanner limited to a range of a larger text (the input form an editor integration uses after
+        # extract()): what lies beyond the range - more digits, a fraction, an operator - is not part of the expression
+        from emmet.scanner import Scanner
+        tail = ('5', '.5', '5.', ' 1', ')', '+1', '(')[(LIMITED['n'] // 7) % 7]
+        ctx.mon('oracle:limited-scanner')
+        r2 = core.call(lambda: evaluate(Scanner('(' + s + tail, 1, 1 + len(s))))
+        same = (r[0] == r2[0] == 'ok' and (r[1] == r2[1] or (r[1] != r[1] and r2[1] != r2[1]))) or \
+               (r[0] == r2[0] == 'exc' and type(r[1]) is type(r2[1]))
+        if not same:
+            ctx.violation('limited-scanner-differs', dict(case, tail=tail), {'plain': repr(r[1])[:80], 'limited': repr(r2[1])[:80]})
+    LIMITED['n'] += 1
     if any(c in s for c in '+-*/\\('):
         ctx.seen(('e', s))
     ctx.state('shape', re.sub(r'[0-9.]+', 'n', s.replace(' ', ''))[:12])
@@ -371,7 +386,15 @@ def run_shard(desc, ctx):
 
 def replay(case, ctx):
     api = _api()
-    if case['fn'] == 'evaluate':
+    if case['fn'] == 'evaluate' and 'tail' in case:
+        from emmet.scanner import Scanner
+        ctx.ev('replay')
+        s, tail = case['s'], case['tail']
+        r = core.call(api[0], s)
+        r2 = core.call(lambda: api[0](Scanner('(' + s + tail, 1, 1 + len(s))))
+        if not ((r[0] == r2[0] == 'ok' and r[1] == r2[1]) or (r[0] == r2[0] == 'exc' and type(r[1]) is type(r2[1]))):
+            ctx.violation('limited-scanner-differs', case, {'plain': repr(r[1])[:80], 'limited': repr(r2[1])[:80]})
+    elif case['fn'] == 'evaluate':
         check_eval(case['s'], 'replay', ctx, api)
     else:
         check_extract(case['s'], case['pos'], case['opt'], 'replay', ctx, api)
